@@ -375,6 +375,13 @@ def check_kv(acc: core.Acc, specs_a: list, specs_b: list) -> None:
                     continue   # extend() takes the children of a keyvalue / an iterable; a named keyvalue's children
                 a2 = mk(specs_a)
                 b2 = mko()
+                if oname == 'iter':
+                    src_items = [kv_build(s) for s in specs_b]     # keep the nodes the iterator hands out
+                    b2 = iter(src_items)
+                elif oname == 'list':
+                    src_items = b2
+                else:
+                    src_items = None
                 db2 = kv_dump(b2) if isinstance(b2, Keyvalues) else None
                 acc.evaluations += 1
                 try:
@@ -397,6 +404,18 @@ def check_kv(acc: core.Acc, specs_a: list, specs_b: list) -> None:
                     shared = [p for i, (p, o) in reachable(a2).items() if i in reachable(b2)]
                     if shared:
                         acc.fail('kv_extend_shares', dict(case, left=lname, right=oname, op=opname), f'{opname} aliases the right operand: {shared[:3]}', op=opname)
+                elif src_items is not None:
+                    # nodes handed over in a list / by an iterator stay owned by their source: documented as copied
+                    before_items = [kv_dump(x) for x in src_items]
+                    shared = [p for i, (p, o) in reachable(a2).items() if i in reachable(src_items)]
+                    if shared:
+                        acc.fail('kv_extend_shares', dict(case, left=lname, right=oname, op=opname),
+                                 f'{opname} with a {oname} operand aliases the nodes it was given: {shared[:3]}', op=opname, right=oname)
+                    for _, (path, o) in sorted(reachable(a2).items(), key=lambda kv: kv[1][0]):
+                        mutate(o)
+                    if [kv_dump(x) for x in src_items] != before_items:
+                        acc.fail('kv_extend_shares', dict(case, left=lname, right=oname, op=opname),
+                                 f'editing the tree extended by {opname} changed the source nodes of the {oname} operand', op=opname, right=oname)
 
 
 def check_math(acc: core.Acc) -> None:
